@@ -13,7 +13,7 @@ import sys
 import numpy as np
 from hypothesis import strategies as st
 
-from .. import gen, sim, worker, SRC_DIR, EXAMPLES_DIR
+from .. import gen, sim, snapshot, worker, SRC_DIR, EXAMPLES_DIR
 from ..report import Report, to_float, decimals_of
 from ..runner import drive
 from . import c09
@@ -78,6 +78,13 @@ def real_cases(draw, tier):
                              ['Electricity Escalation Rate Per Year', '2']]}[ext]
         params = gen.merge(params, blk)
         c = dict(c, labels=c.get('labels', []) + ['extreme:' + ext])
+    if draw(st.integers(0, 11)) == 0:
+        # both extensions in one run: the report gets both extra sections and the side-car JSON must carry both
+        names = set(p[0] for p in params)
+        if not any(n.startswith('AddOn ') for n in names):
+            params = gen.merge(gen.drop_param(params, 'Construction Years'), gen.ADDONS)
+        params = gen.merge(params, gen.SDAC)
+        c = dict(c, labels=c.get('labels', []) + ['addons_and_sdacgt'])
     return dict(c, params=params, kind='real')
 
 
@@ -277,6 +284,56 @@ def check_json(text, js, rec, case):
                           label=e['label'])
 
 
+_MAP = {}
+
+
+def _line_map():
+    if 'm' not in _MAP:
+        with open(os.path.join(os.path.dirname(os.path.dirname(__file__)), 'report_map.json')) as f:
+            _MAP['m'] = json.load(f)
+    return _MAP['m']
+
+
+def check_json_quantities(text, js, snap, rec, case):
+    """every scalar line of the report that shows one output of the run (C09's line table: section||label -> module.attribute)
+    must have that output in the side-car JSON, under the output's name, with the value the run computed"""
+    if not js or snap is None:
+        return
+    rep = Report(text)
+    by_name = {}
+    for sec in snapshot.SECTIONS:
+        for attr, p in (snap[sec] or {}).items() if snap.get(sec) else ():
+            if attr != '__class__' and getattr(p, 'kind', None) == 'out':
+                by_name.setdefault(p.name, []).append(p.value)
+    n = 0
+    for sec, e in rep.entries():
+        if e['value'] is None:
+            continue
+        spec = _line_map().get(f'{sec}||{e["label"]}')
+        if not spec or spec.get('n_candidates') != 1:
+            continue
+        mod_attr, kind, _ = spec['candidates'][0].split('|')
+        mod, attr = mod_attr.split('.', 1)
+        p = (snap.get(mod) or {}).get(attr) if snap.get(mod) else None
+        if p is None or getattr(p, 'kind', None) != 'out' or kind != 'scalar' or not isinstance(p.value, (int, float)) or isinstance(p.value, bool):
+            continue
+        n += 1
+        ent = js.get(p.name)
+        if not isinstance(ent, dict) or 'value' not in ent:
+            rec.violation('json_lacks_printed_quantity', case, {'section': sec, 'label': e['label'], 'output_name': p.name, 'printed': e['tok']},
+                          section=sec, label=e['label'])
+            continue
+        jv = ent['value']
+        # the same name may be carried by outputs of two modules (LCOH of the core and of the S-DAC-GT economics): either value
+        ok = any(isinstance(v, (int, float)) and isinstance(jv, (int, float)) and
+                 (v == jv or abs(float(v) - float(jv)) <= 1e-9 * max(abs(float(v)), abs(float(jv)))) or (v != v and jv != jv)
+                 for v in by_name.get(p.name, []))
+        if not ok and isinstance(jv, (int, float)):
+            rec.violation('json_differs_from_report', case, {'label': e['label'], 'section': sec, 'printed': e['tok'], 'json': jv,
+                                                             'computed': p.value, 'output_name': p.name}, label=e['label'])
+    rec.count('report_lines_checked_against_json', n)
+
+
 def hash_seed_stability(paths, rec, case_of):
     """parse all reports under PYTHONHASHSEED 0..3 in subprocesses; structures must be identical"""
     if not paths:
@@ -377,6 +434,8 @@ def _eval_generated(c, rec, keep):
     nt = check_report(r.out, r.report, result, csv_text, rec, case, labels)
     if c['kind'] == 'real':
         check_json(r.report, r.json, rec, case)
+        if not any(p[0].startswith('Units:') for p in c['params']):
+            check_json_quantities(r.report, r.json, r.snap, rec, case)
     rec.case(case, nontrivial=nt, labels=labels, key=case, sample={'kind': c['kind'], 'family': c.get('family'), 'mode': c.get('mode'),
                                                                    'report_lines': r.report.count('\n')})
     keep.append((r.out, case))
